@@ -82,7 +82,7 @@ var (
 	reCondElse    = regexp.MustCompile(`}\s*else\s*{`)
 
 	reSwitch           = regexp.MustCompile(`^switch\s*([^\s^{]*)\s*{`)
-	reSwitchCase       = regexp.MustCompile(`case ([^<=>!]+)([<=>!]{2})*(.*):`)
+	reSwitchCase       = regexp.MustCompile(`case ([^<=>!]+)(==|!=|>=|<=|>|<)*(.*):`)
 	reSwitchCaseHelper = regexp.MustCompile(`case ([^(]+)\(*([^)]*)\):`)
 	reSwitchDefault    = regexp.MustCompile(`default\s*:`)
 
